@@ -156,12 +156,29 @@ Definition feed_agree (x : feed_case) : bool :=
   | None => false
   end.
 
+(** compact form in which the harness writes the feed-alone cases (one number per event keeps the case files small):
+    event = kind + 8 * height + 1024 * o, kind 0 FPublish (height, []) | 1 FPublishErr | 2 FNext | 3 FRecv | 4 FTick | 5 FCancel,
+    o = 0 no observation, o = n + 1 observed n headers handed out; received headers as their heights *)
+Definition feed_case_z : Type := (list Z * list Z * bool)%type.
+
+Definition fdecode (z : Z) : fevent * option nat :=
+  let k := z mod 8 in
+  let h := (z / 8) mod 128 in
+  let o := z / 1024 in
+  ((if k =? 0 then FPublish (h, []) else if k =? 1 then FPublishErr else if k =? 2 then FNext
+    else if k =? 3 then FRecv else if k =? 4 then FTick else FCancel),
+   if o =? 0 then None else Some (Z.to_nat (o - 1))).
+
+Definition feed_case_of_z (x : feed_case_z) : feed_case :=
+  let '(es, got, closed) := x in (map fdecode es, map (fun h => (h, [])) got, closed).
+
 Fixpoint fmism_from (n : N) (cs : list feed_case) : list N :=
   match cs with
   | [] => []
   | x :: r => if feed_agree x then fmism_from (N.succ n) r else n :: fmism_from (N.succ n) r
   end.
 Definition feed_mismatches (cs : list feed_case) : list N := fmism_from 0%N cs.
+Definition feed_mismatches_z (cs : list feed_case_z) : list N := feed_mismatches (map feed_case_of_z cs).
 
 (** composition (real feed wired into the real blob service): per subscription its events, after some of them the
     observed (length of the response channel, number of headers NextHeader has handed out); the responses received;
